@@ -176,6 +176,7 @@ type World struct {
 	checkDocsAfterOp bool // C04: compare every reachable document after every operation
 	refInline        bool // C05: evaluate the pre-parsed reference on a copy of the current document
 	judgeOutcome     bool // compare outcome with the expectation
+	selfReentry      bool // user functions may re-enter the parsed function that is calling them
 	checkOld         bool // earlier results must not change
 }
 
@@ -296,13 +297,19 @@ func soloEval(pf *ParsedFn, doc interface{}, faults [nFuncs]uint64, rec *Recorde
 	return soloEvalP(pf, doc, faults, [nFuncs]uint64{}, rec)
 }
 
+// soloSelf: the next reference evaluation lets user functions re-enter the evaluated function
+// (set only where the judged execution does the same).
+var soloSelf bool
+
 func soloEvalP(pf *ParsedFn, doc interface{}, faults, panics [nFuncs]uint64, rec *Recorder) (string, string) {
 	if pf.Fn == nil {
 		return "PARSE:" + pf.Out, ""
 	}
 	rec.reset(faults)
 	rec.Panics = panics
-	rec.Self = pf.Fn
+	if soloSelf {
+		rec.Self = pf.Fn
+	}
 	s := recSlot()
 	old := curRec[s]
 	curRec[s] = rec
@@ -403,7 +410,9 @@ func (w *World) execOp(t *Task, idx int) {
 			o.Done = true
 			return
 		}
-		t.rec.Self = pf.Fn
+		if w.selfReentry {
+			t.rec.Self = pf.Fn
+		}
 		res, out := safeCall(pf.Fn, d.Val)
 		o.Got, o.GotLog, o.Done = out, t.rec.log(), true
 		if simrt.Aborted() != 0 {
@@ -417,7 +426,9 @@ func (w *World) execOp(t *Task, idx int) {
 		}
 		if w.refInline && o.RefFn != nil {
 			simrt.SetMode(simrt.ModeSolo)
+			soloSelf = w.selfReentry
 			exp, explog := soloEvalP(o.RefFn, before, o.Faults, o.Panics, &t.refRec)
+			soloSelf = false
 			simrt.SetMode(simrt.ModeSim)
 			w.judge(t, o, exp, explog)
 		} else if o.HasExpect {
